@@ -61,6 +61,71 @@ func (w *World) applyRead(op Op) *Violation {
 			}
 		}
 		_, _ = t.Iterate(func(k, v []byte) bool { return false })
+	case 13:
+		// use everything: every read entry point of the working tree and of every retained version is called once
+		// (results are not compared here - the oracles of the state reached later do that; the point is whatever these
+		// calls memoise inside the objects)
+		var keys [][]byte
+		_, _ = t.Iterate(func(k, _ []byte) bool { keys = append(keys, append([]byte{}, k...)); return false })
+		keys = append(keys, []byte("a"), []byte("zz"))
+		_, _ = t.IsFastCacheEnabled()
+		_, _ = t.IsUpgradeable()
+		_, _, _ = t.IsEmpty(), t.Size(), t.Height()
+		_, _ = t.Version(), t.WorkingVersion()
+		_ = t.Hash()
+		_ = t.WorkingHash()
+		for _, k := range keys {
+			_, _ = t.Get(k)
+			_, _ = t.Has(k)
+			_, _, _ = t.GetWithIndex(k)
+			if t.Size() > 0 {
+				_, _ = t.ImmutableTree.GetProof(k)
+			}
+		}
+		_, _, _ = t.GetByIndex(0)
+		for _, asc := range []bool{true, false} {
+			if it, err := t.Iterator(nil, nil, asc); err == nil {
+				for ; it.Valid(); it.Next() {
+				}
+				_ = it.Close()
+			}
+		}
+		for _, v := range t.AvailableVersions() {
+			ver := int64(v)
+			_ = t.VersionExists(ver)
+			it, err := t.GetImmutable(ver)
+			if err != nil {
+				continue
+			}
+			_, _ = it.IsFastCacheEnabled()
+			_ = it.Hash()
+			_, _ = it.Iterate(func(k, _ []byte) bool { return false })
+			for _, asc := range []bool{true, false} {
+				if itr, err := it.Iterator(nil, nil, asc); err == nil {
+					for ; itr.Valid(); itr.Next() {
+					}
+					_ = itr.Close()
+				}
+			}
+			for _, k := range keys {
+				_, _ = it.Get(k)
+				_, _, _ = it.GetWithIndex(k)
+				_, _ = t.GetVersioned(k, ver)
+				if it.Size() > 0 {
+					_, _ = t.GetVersionedProof(k, ver)
+				}
+			}
+			_, _, _ = it.GetByIndex(0)
+			if e, err := it.Export(); err == nil {
+				for {
+					if _, err := e.Next(); err != nil {
+						break
+					}
+				}
+				e.Close()
+			}
+		}
+		_, _ = t.GetLatestVersion()
 	case 11:
 		if it, err := t.GetImmutable(op.Ver); err == nil {
 			if e, err := it.Export(); err == nil {
